@@ -4,7 +4,8 @@
 From CG3 Require Import Lib.PyZ Lib.Val Model.IndelMap Model.IndelMapFixed Spec.IndelMapSpec Spec.IndelMapStringOps.
 From CG3 Require Import Proofs.IndelMapProofs Proofs.IndelMapOps Proofs.IndelMapSlice Proofs.IndelMapIndex
                         Proofs.IndelMapMain Proofs.IndelMapBounded Proofs.IndelMapFixedProofs Proofs.IndelMapShared
-                        Proofs.IndelMapJoin Proofs.IndelMapGenEq.
+                        Proofs.IndelMapJoin Proofs.IndelMapMerge Proofs.IndelMapGenEq Proofs.IndelMapGenMergeEq
+                        Proofs.IndelMapGenLoopEq.
 From CG3gen Require Import IndelMapGen.
 Import G.
 
@@ -78,3 +79,21 @@ Proof. rewrite get_gap_coordinates_eq. apply gap_coordinates_spec. Qed.
 Lemma gen_get_coordinates_bounded k : (length k <= 10)%nat ->
   nonempty (g_get_coordinates (from_mask k)) = nonempty (seq_segments k).
 Proof. intros Hk. rewrite get_coordinates_eq. now apply listings_v2_bounded. Qed.
+
+(** ** [merge_maps] / [_update_lengths], the generators [spans] / [nongap] *)
+
+Lemma gen_merge_maps_spec m1 m2 : WF m1 -> WF m2 -> parent_length m1 = parent_length m2 ->
+  exists m', g_merge_maps m1 m2 None = Ok m' /\ WF m' /\ abs m' = mask_merge (abs m1) (abs m2).
+Proof. intros H1 H2 Hp. rewrite merge_maps_eq_all. now apply merge_maps_spec. Qed.
+
+Lemma gen_merge_from_mask k1 k2 : count_res k1 = count_res k2 ->
+  g_merge_maps (from_mask k1) (from_mask k2) None = Ok (from_mask (mask_merge k1 k2)).
+Proof. intros H. rewrite merge_maps_eq_all. now apply merge_from_mask. Qed.
+
+Lemma gen_spans_spec m : WF m -> concat (map span_mask (g_spans m)) = abs m.
+Proof. intros H. rewrite spans_eq by now apply WF_LenOK. now apply spans_mask_spec. Qed.
+
+Lemma gen_nongap_bounded k : (length k <= 10)%nat -> nonempty (g_nongap (from_mask k)) = seg_runs k.
+Proof.
+  intros Hk. rewrite nongap_eq by (apply WF_LenOK, wf_from_mask). now apply listings_v2_bounded.
+Qed.
